@@ -1,11 +1,12 @@
 SPECIFICATION Spec
-CONSTANTS Tri = {"run", "fill_into"}
+CONSTANTS Tri = {"run"}
 INVARIANT AsDocumented
 INVARIANT NamedNeverCasts
 INVARIANT FillComputeBinds
 INVARIANT BlankRejected
 INVARIANT AttrIsAbsent
 INVARIANT CbfOnlyFillInto
+INVARIANT TruthIrrelevant
 INVARIANT Monotone
 INVARIANT LogWithinCaps
 INVARIANT RepeatedUse
